@@ -1,7 +1,7 @@
 """Per-property checks.  Each returns the process exit code (0 ok, 1 violation, 2 machinery broken)."""
 import os, sys, json, time, traceback
 from .core import (ModelError, Verdict, build_driver, run_tlc, SPEC, VERIF)
-from . import parsecheck, apicheck
+from . import parsecheck, apicheck, printcheck
 
 
 def seed_of():
@@ -149,7 +149,36 @@ def check_C10(tier, seed):
                          "(values, counts, annotation, RESET/MODIFIED bits) must be bit-for-bit identical before and after")
 
 
-CHECKS = {"C09": check_C09, "C10": check_C10, "C14": check_C14, "C07": check_C07, "C12": check_C12, "C01": check_C01, "C06": check_C06, "C15": check_C15}
+INV_PRINT = ["P_C19_ExactlyOnceInOrder", "P_C19_Nesting", "P_C19_UnsetCommentedOut", "P_C19_PrintCb"]
+
+
+def check_C19(tier, seed):
+    v = Verdict("C19", tier, seed)
+    exe = build_driver("asan")
+    res = run_tlc("MC_Print.tla", os.path.join("mc", "print_quick.cfg"))
+    v.add_tlc("print_quick.cfg", res, INV_PRINT)
+    printcheck.replay(v, exe, res, seed=seed, tag="C19")
+    v.cov["exhaustive"] = True
+    return v.finish(rule="a populated three-level tree x a filter from three name predicates (or none) at each of four nesting levels "
+                         "x every subset of four options carrying a print callback x seven print entry points (cfg_print, "
+                         "cfg_print_indent, section print, cfg_opt_print(_indent) on list / section / multi section / unset scalar); "
+                         "the printed text is compared line by line with the specification's line records")
+
+
+def check_C05(tier, seed):
+    v = Verdict("C05", tier, seed)
+    exe = build_driver("asan")
+    for c in ["rt_quick.cfg", "rt_nopre_quick.cfg"]:
+        res = run_tlc("MC_Api.tla", os.path.join("mc", c))
+        v.add_tlc(c, res, ["P_C05_RoundTrip"] + PROPS_API)
+        apicheck.replay(v, exe, res, aspects={"roundtrip"}, seed=seed, tag="C05", sigprefix="rt")
+    v.cov["exhaustive"] = True
+    return v.finish(rule="every state of the store reachable by the call pool (setters, lists, bulk set, annotations, titled add/remove, "
+                         "strings and titles containing quotes, backslashes, '$', comment markers) from the initial and a parsed state, "
+                         "over a schema of printable option kinds: print -> parse into a fresh context -> compare trees -> print -> parse -> print")
+
+
+CHECKS = {"C05": check_C05, "C19": check_C19, "C09": check_C09, "C10": check_C10, "C14": check_C14, "C07": check_C07, "C12": check_C12, "C01": check_C01, "C06": check_C06, "C15": check_C15}
 
 
 def main(argv):
